@@ -334,6 +334,9 @@ class PeriodicTable(object):
                 isotope = int(parts[0])
             except Exception:
                 isotope = -1
+            if isotope == 0:
+                # 0 means "no isotope given" below; '0-Fe' is not an isotope
+                isotope = -1
             symbol = parts[1]
         else:
             symbol = ''
